@@ -340,6 +340,17 @@ def to_model_show(v):
     return "" if t == "_" else "".join(chr(int(x)) for x in t.split(","))
 
 
+def to_model_literal(v):
+    if v.startswith("value "):
+        t = v.split(" ", 1)[1]
+        return "" if t == "_" else "".join(chr(int(x)) for x in t.split(","))
+    if v.startswith("error "):
+        return "compile-err " + v.split(" ", 1)[1]
+    if v == "noparse":
+        return "compile-err Syntax"
+    return "?" + v
+
+
 def to_model_opt(v):
     if v.startswith("err "):
         return ERR
@@ -538,7 +549,7 @@ def run(chk):
     for _ in range(500 if quick else 15000):
         sp = gen_literal(rng)
         want = o_literal(sp)
-        ladd("literal", sp, want, inp=(sp,))
+        ladd("literal", sp, want, f"lex literal {cps(sp)}", to_model_literal, (sp,))
     for sp, want in [("'it\\'s'", "it's"), ('f"a\\"b"', 'a"b'), ('"\\u{+41}"', "compile-err BadEscapeSequence"), ('"\\u{0000041}"', "compile-err BadEscapeSequence"),
                      ('#"a"b"#', 'a"b'), ('r"a\\nb"', "a\\nb"), ('##"x"#"##', 'x"#'), ('f"{{}}"', "{}"), ('f"{1}}}"', "1}")]:
         ladd("literal", sp, want, inp=(sp,))
